@@ -2099,8 +2099,66 @@ class VM:
             )
             return search in s[pos:]
 
+        def get_substitution(template, matched, position, captures):
+            """GetSubstitution: $$ $& $` $' $n $nn, scanned left to right."""
+            out = []
+            i = 0
+            while i < len(template):
+                ch = template[i]
+                nxt = template[i + 1 : i + 2]
+                if ch != "$" or nxt == "":
+                    out.append(ch)
+                    i += 1
+                elif nxt == "$":
+                    out.append("$")
+                    i += 2
+                elif nxt == "&":
+                    out.append(matched)
+                    i += 2
+                elif nxt == "`":
+                    out.append(s[:position])
+                    i += 2
+                elif nxt == "'":
+                    out.append(s[position + len(matched) :])
+                    i += 2
+                elif nxt.isdigit() and nxt.isascii():
+                    digits = nxt
+                    third = template[i + 2 : i + 3]
+                    if third.isdigit() and third.isascii() and int(nxt + third) <= len(captures):
+                        digits = nxt + third
+                    index = int(digits)
+                    if 1 <= index <= len(captures):
+                        out.append(captures[index - 1] or "")
+                    else:
+                        out.append("$" + digits)
+                    i += 1 + len(digits)
+                else:
+                    out.append("$")
+                    i += 1
+            return "".join(out)
+
+        def replace_string(search, replacer, every):
+            """replace / replaceAll with a string search value: first or every occurrence."""
+            functional = isinstance(replacer, JSFunction) or callable(replacer)
+            template = "" if functional else to_string(replacer)
+            parts = []
+            end_of_last = 0
+            position = s.find(search)
+            while position != -1:
+                parts.append(s[end_of_last:position])
+                if functional:
+                    parts.append(to_string(self._call_callback(replacer, [search, position, s])))
+                else:
+                    parts.append(get_substitution(template, search, position, []))
+                end_of_last = position + len(search)
+                if not every:
+                    break
+                position = s.find(search, position + max(1, len(search)))
+            parts.append(s[end_of_last:])
+            return "".join(parts)
+
         def replace(*args):
-            pattern = args[0] if args else ""
+            pattern = args[0] if args else UNDEFINED
             replacer = args[1] if len(args) > 1 else UNDEFINED
             # A function replacer is called for every match; anything else is a template
             functional = isinstance(replacer, JSFunction) or callable(replacer)
@@ -2122,43 +2180,7 @@ class VM:
                             call_args += [UNDEFINED if c is None else c for c in captures]
                             call_args += [position, s]
                             return to_string(self._call_callback(replacer, call_args))
-                        # GetSubstitution: $$ $& $` $' $n $nn, scanned left to right
-                        out = []
-                        i = 0
-                        template = replacement
-                        while i < len(template):
-                            ch = template[i]
-                            nxt = template[i + 1 : i + 2]
-                            if ch != "$" or nxt == "":
-                                out.append(ch)
-                                i += 1
-                            elif nxt == "$":
-                                out.append("$")
-                                i += 2
-                            elif nxt == "&":
-                                out.append(matched)
-                                i += 2
-                            elif nxt == "`":
-                                out.append(s[:position])
-                                i += 2
-                            elif nxt == "'":
-                                out.append(s[position + len(matched) :])
-                                i += 2
-                            elif nxt.isdigit() and nxt.isascii():
-                                digits = nxt
-                                third = template[i + 2 : i + 3]
-                                if third.isdigit() and third.isascii() and int(nxt + third) <= len(captures):
-                                    digits = nxt + third
-                                index = int(digits)
-                                if 1 <= index <= len(captures):
-                                    out.append(captures[index - 1] or "")
-                                else:
-                                    out.append("$" + digits)
-                                i += 1 + len(digits)
-                            else:
-                                out.append("$")
-                                i += 1
-                        return "".join(out)
+                        return get_substitution(replacement, matched, position, captures)
 
                     result_parts = []
                     last_end = 0
@@ -2208,23 +2230,11 @@ class VM:
                     raise TimeLimitError("Regex execution timeout")
             else:
                 # String replace - only replace first occurrence
-                search = to_string(pattern)
-                # Handle special replacement patterns
-                repl = replacement if not functional else to_string(replacer)
-                if "$$" in repl:
-                    repl = repl.replace("$$", "\x00DOLLAR\x00")
-                if "$&" in repl:
-                    repl = repl.replace("$&", search)
-                repl = repl.replace("\x00DOLLAR\x00", "$")
-                # Find first occurrence and replace
-                idx = s.find(search)
-                if idx >= 0:
-                    return s[:idx] + repl + s[idx + len(search) :]
-                return s
+                return replace_string(to_string(pattern), replacer, False)
 
         def replaceAll(*args):
-            pattern = args[0] if args else ""
-            replacement = to_string(args[1]) if len(args) > 1 else "undefined"
+            pattern = args[0] if args else UNDEFINED
+            replacer = args[1] if len(args) > 1 else UNDEFINED
 
             if isinstance(pattern, JSRegExp):
                 # replaceAll with regex requires global flag
@@ -2233,16 +2243,7 @@ class VM:
                 return replace(*args)
             else:
                 # String replaceAll - replace all occurrences
-                search = to_string(pattern)
-                # Handle special replacement patterns
-                if "$$" in replacement:
-                    # $$ -> $ (must be done before other replacements)
-                    replacement = replacement.replace("$$", "\x00DOLLAR\x00")
-                if "$&" in replacement:
-                    # $& -> the matched substring
-                    replacement = replacement.replace("$&", search)
-                replacement = replacement.replace("\x00DOLLAR\x00", "$")
-                return s.replace(search, replacement)
+                return replace_string(to_string(pattern), replacer, True)
 
         def match(*args):
             pattern = args[0] if args else None
